@@ -1,7 +1,7 @@
 (* C01 -- the premises of the C01 theorems hold for members of the function library (non-vacuity). *)
 From Coq Require Import String ZArith NArith List Bool Lia.
 Require Import PV.Base.Val PV.Base.PyArith.
-Require Import PV.Model.Rdd PV.Model.RddLib PV.Proofs.Rdd PV.Proofs.RddTr PV.Proofs.RddAct.
+Require Import PV.Model.Rdd PV.Model.RddLib PV.Proofs.Rdd PV.Proofs.RddTr PV.Proofs.RddAct PV.Proofs.RddFold.
 Import ListNotations.
 Open Scope Z_scope.
 
@@ -37,6 +37,24 @@ Proof.
   intros a b c. unfold op_extend, terr.
   destruct a, b, c; simpl; try reflexivity. do 2 f_equal. apply app_assoc.
 Qed.
+
+(* the library operators raise nothing but TypeError *)
+Lemma terr_single (f : op2) : (forall a b, f a b = terr \/ exists v, f a b = Ok v) -> single_err f.
+Proof.
+  intros H. exists "TypeError"%string. intros a b e E.
+  destruct (H a b) as [H1|[v H1]]; rewrite H1 in E; inversion E; reflexivity.
+Qed.
+
+Lemma op_add_single : single_err op_add.
+Proof. apply terr_single. intros a b. destruct a, b; simpl; eauto. Qed.
+Lemma op_max_single : single_err op_max.
+Proof. apply terr_single. intros a b. destruct a, b; simpl; eauto. Qed.
+Lemma op_mul_single : single_err op_mul.
+Proof. apply terr_single. intros a b. destruct a, b; simpl; eauto. Qed.
+Lemma op_extend_single : single_err op_extend.
+Proof. apply terr_single. intros a b. destruct a, b; simpl; eauto. Qed.
+Lemma op_first_single : single_err op_first.
+Proof. apply terr_single. intros a b. right. exists a. reflexivity. Qed.
 
 Lemma op_sub_not_assoc : ~ assoc_m op_sub.
 Proof. intros H. specialize (H (VInt 1) (VInt 1) (VInt 1)). vm_compute in H. discriminate. Qed.
@@ -128,3 +146,26 @@ Proof. split; [reflexivity|]. intros. unfold mp_evens. apply flat_mapM_app. Qed.
 
 Lemma mp_rev_not_hom : ~ part_hom mp_rev.
 Proof. intros [_ H]. specialize (H [VInt 1] [VInt 2]). vm_compute in H. discriminate. Qed.
+
+(* integers under + with 0, and under max-style op_mul with 1, are monoids in the sense of fold_monoid *)
+Definition is_int (v : val) : Prop := exists z, v = VInt z.
+
+Lemma int_add_monoid : monoid_on is_int (VInt 0) op_add.
+Proof.
+  repeat split.
+  - exists 0; reflexivity.
+  - intros a b [x ->] [y ->]. eexists; split; [reflexivity|]. eexists; reflexivity.
+  - destruct H as [x ->]. cbv [op_add op_mul]. do 2 f_equal; lia.
+  - destruct H as [x ->]. cbv [op_add op_mul]. do 2 f_equal; lia.
+  - intros a b c [x ->] [y ->] [w ->]. cbv [op_add op_mul bind]. do 2 f_equal; lia.
+Qed.
+
+Lemma int_mul_monoid : monoid_on is_int (VInt 1) op_mul.
+Proof.
+  repeat split.
+  - exists 1; reflexivity.
+  - intros a b [x ->] [y ->]. eexists; split; [reflexivity|]. eexists; reflexivity.
+  - destruct H as [x ->]. cbv [op_add op_mul]. do 2 f_equal; lia.
+  - destruct H as [x ->]. cbv [op_add op_mul]. do 2 f_equal; lia.
+  - intros a b c [x ->] [y ->] [w ->]. cbv [op_add op_mul bind]. do 2 f_equal; lia.
+Qed.
